@@ -270,6 +270,9 @@ def make_program(rng, nfuncs=8, only=None):
         # the largest allocation the 16-bit form of UWOP_ALLOC_LARGE can state, with nothing pushed before it: with the
         # return address the frame is exactly 65536 words
         funcs.append(make_func(rng, "f%d" % len(funcs), "large", force=dict(npush=0, alloc=rng.choice([0x7fff8, 0x7fff8, 0x7fff0]))))
+        # ... and one whose allocation needs the 32-bit form and does not fit 16 bits when divided by 8, with pushes only
+        # (the cacheable pop rule cannot hold it: the step must be interpreted; seeded change C03-7 truncated it)
+        funcs.append(make_func(rng, "f%d" % len(funcs), "large", force=dict(npush=rng.range(0, 3), alloc=rng.choice([0x80000, 0x80040, 0x100010]))))
     # layout: regions in shuffled order, separated by int3 padding
     regs = [(f, k) for f in funcs for k in range(len(f.regions))]
     rng.shuffle(regs)
